@@ -34,6 +34,7 @@ def dispatch (cmd : String) (args : List Sexp) : Option String :=
   | "inplace.fn" => Driver.InPlace.fnCmd args
   | "layout.check" => Driver.Layout.check args
   | "resolve.get" => Driver.Resolve.get args
+  | "taint.names" => Driver.Resolve.taintNames args
   | "freeze.locals" => Driver.Freeze.locals args
   | "freeze.globals" => Driver.Freeze.globals args
   | "hoist.place" => Driver.Rename.hoistPlace args
